@@ -67,6 +67,16 @@ func (r *Restoration) Apply(res *pbresource.Resource) error {
 // Commit the restoration. Replaces the in-memory database wholesale and closes
 // any watches.
 func (r *Restoration) Commit() {
+	// Carry the event index over into the restored database. Otherwise it would
+	// restart at its initial value while topic buffers and in-flight events of
+	// the old database still carry higher indexes, and a watch created after the
+	// restore would be handed pre-restore events as if they were new.
+	oldTx := r.s.txn(false)
+	idx, err := currentEventIndex(oldTx)
+	oldTx.Abort()
+	if err == nil {
+		_ = r.tx.Insert(tableNameMetadata, meta{Key: metaKeyEventIndex, Value: idx})
+	}
 	r.tx.Commit()
 
 	r.s.mu.Lock()
